@@ -28,6 +28,7 @@ fn main() {
         "search" => search(&a),
         "sql" => sql_mode(&a),
         "probe" => probe(&a),
+        "explain" => explain(&a),
         _ => { eprintln!("c19: unknown mode"); std::process::exit(2); }
     }
 }
@@ -350,6 +351,10 @@ fn tlp_holds(p: &Res, np: &Res, nul: &Res, all: &Res) -> bool {
     }
 }
 
+fn shape_from(q: &Query) -> String {
+    let mut ks = vec![]; q.from.kinds(&mut ks);
+    if ks.is_empty() { "single".to_string() } else { ks.iter().map(|k| k.tok()).collect::<Vec<_>>().join("+") }
+}
 fn shape_kind(q: &Query) -> String {
     let mut ks = vec![]; q.from.kinds(&mut ks);
     let j = if ks.is_empty() { "single".to_string() } else { ks.iter().map(|k| k.tok()).collect::<Vec<_>>().join("+") };
@@ -389,7 +394,10 @@ fn emit_meta(w: &mut CaseWriter, sut: &mut Sut, m: &MetaCase, stream: &str) {
     } else { "None".into() };
     let term = format!("Meta {} {} {} {} [{}] {}", db_coq(&m.db), m.q.to_coq(), dict.coq(), base_s, forms.join("; "), tlp_s);
     let (defined, unknown, cand) = meta_stats(m);
-    let kind = format!("{}:meta:{}", stream, shape_kind(&m.q));
+    let kind = format!("{}:meta:{}", stream, shape_from(&m.q));
+    w.count(&format!("select:{}", if m.q.star { "star" } else if m.q.items.iter().all(|e| matches!(e, Expr::Col(_))) { "columns" } else { "expressions" }), 1);
+    w.count(if m.q.wh.is_some() { "where:yes" } else { "where:no" }, 1);
+    w.count(&format!("class:{}", case_class(m)), 1);
     // non-trivial: the reference semantics is defined, at least two candidate rows, a WHERE clause or a join, and at least one formulation compared
     let nontrivial = defined && cand >= 2 && (m.q.wh.is_some() || m.q.from.n_joins() > 0) && (!forms.is_empty() || m.tlp);
     w.push(term, Case::Meta(m.clone()).to_line(), nontrivial, &kind);
@@ -413,7 +421,7 @@ fn emit_push(w: &mut CaseWriter, db: &[Table], q: &Query, stream: &str) {
     let out = observe_push(db, q);
     if let PushOut::Other(m) = &out { eprintln!("c19: pushdown observation failed: {} on {}", m, q.to_sql(db)); }
     let term = format!("Push {} {} {} {}", db_coq(db), q.from.to_coq(), q.wh.as_ref().expect("push case has a WHERE clause").to_coq(), out.coq());
-    w.push(term, Case::Push(db.to_vec(), q.clone()).to_line(), !matches!(out, PushOut::Stay | PushOut::Other(_)), &format!("{}:push:{}", stream, shape_kind(q)));
+    w.push(term, Case::Push(db.to_vec(), q.clone()).to_line(), !matches!(out, PushOut::Stay | PushOut::Other(_)), &format!("{}:push:{}", stream, shape_from(q)));
     w.count(out.bucket(), 1);
 }
 
@@ -524,6 +532,20 @@ fn gen_meta(rng: &mut Rng, shape: Shape, cfg: &GenCfg) -> MetaCase {
     MetaCase { db, q, rws, tlp }
 }
 
+/// a case outside every recorded finding class: the query is regenerated until it is, and only the
+/// rewrites (and the TLP partition) that stay outside are kept
+fn gen_meta_clean(rng: &mut Rng, shape: Shape, cfg: &GenCfg) -> MetaCase {
+    for _ in 0..60 {
+        let m = gen_meta(rng, shape, cfg);
+        if query_class(&m.q, &m.db) != 0 { continue; }
+        let rws: Vec<Rewrite> = m.rws.iter().filter(|rw| match rw.apply(&m.q, &m.db) { Some((q2, _)) => query_class(&q2, &m.db) == 0, None => false }).cloned().collect();
+        let tlp = m.tlp && match tlp_queries(&m.q) { Some((a, b, c)) => [a, b, c].iter().all(|q| query_class(q, &m.db) == 0), None => false };
+        if rws.is_empty() && !tlp { continue; }
+        return MetaCase { rws, tlp, ..m };
+    }
+    gen_meta(rng, Shape::Single, cfg)
+}
+
 fn stream_cfg(k: u64) -> (&'static str, GenCfg) {
     match k % 6 {
         0 | 1 => ("plain", GenCfg { allow_not: false, allow_neg_forms: false, allow_null_lit: false, allow_bool_lit: false, allow_pred_operand: false, allow_arith: false, null_pct: 20, ..GenCfg::default() }),
@@ -555,7 +577,8 @@ fn gen(a: &Args) {
     for k in 0..n_meta {
         let (stream, cfg) = stream_cfg(k);
         let shape = pick_shape(&mut rng);
-        let m = gen_meta(&mut rng, shape, &cfg);
+        // three quarters of the cases stay outside the recorded finding classes
+        let m = if k % 4 != 3 { gen_meta_clean(&mut rng, shape, &cfg) } else { gen_meta(&mut rng, shape, &cfg) };
         emit_meta(&mut w, &mut sut, &m, stream);
     }
     // rule-level cases: the real ConstantFoldingRule / PredicatePushdownRule on generated plans
@@ -653,17 +676,21 @@ fn search(a: &Args) {
     while tried < budget {
         let (_, cfg) = stream_cfg(rng.below(6));
         let shape = pick_shape(&mut rng);
-        let m = gen_meta(&mut rng, shape, &cfg);
+        let m = if rng.chance(2, 3) { gen_meta_clean(&mut rng, shape, &cfg) } else { gen_meta(&mut rng, shape, &cfg) };
         tried += 1;
+        // the oracle speaks only where the reference semantics is defined for every formulation
+        if all_queries(&m).iter().any(|q| eval_query(q, &m.db).is_none()) { continue; }
         let bad = check_meta(&mut sut, &m);
-        if !bad.is_empty() && fails.len() < 60 {
+        if !bad.is_empty() {
             // keep only the disagreeing formulations in the replay line
             let keep: Vec<Rewrite> = m.rws.iter().filter(|r| bad.contains(&r.to_line())).cloned().collect();
             let m2 = MetaCase { rws: keep, tlp: bad.iter().any(|b| b == "tlp"), ..m.clone() };
-            fails.push(Case::Meta(m2).to_line());
+            let k = case_class(&m2);
+            if fails.len() < 60 && (k == 0 || fails.len() < 30) { fails.push(format!("{} #k={}", Case::Meta(m2).to_line(), k)); }
         }
     }
     sut.cleanup();
+    fails.sort_by_key(|f| !f.ends_with("#k=0"));
     let mut out = format!("tried={}\n", tried);
     for f in &fails { out.push_str("FAIL "); out.push_str(f); out.push('\n'); }
     std::fs::write(&a.out, out).expect("write search output");
@@ -684,6 +711,18 @@ fn all_queries(m: &MetaCase) -> Vec<Query> {
     for rw in &m.rws { if let Some((q2, _)) = rw.apply(&m.q, &m.db) { v.push(q2); } }
     if m.tlp { if let Some((a, b, c)) = tlp_queries(&m.q) { v.push(a); v.push(b); v.push(c); } }
     v
+}
+/// finding class of a query (rough port of q_class, coq/Model/PlanClass.v; the authoritative classification is Coq's)
+fn query_class(q: &Query, db: &[Table]) -> u32 {
+    let d = dangers(q, db);
+    for (tag, k) in [("proj", 1), ("star", 2), ("expritem", 3), ("three", 9), ("push_blind", 4), ("push_right_cond", 5), ("outer_where", 6), ("right_names", 7), ("on_residual", 8)] {
+        if d.contains(&tag) { return k; }
+    }
+    0
+}
+fn case_class(m: &MetaCase) -> u32 {
+    for q in all_queries(m) { let k = query_class(&q, &m.db); if k != 0 { return k; } }
+    0
 }
 fn case_dangers(m: &MetaCase) -> Vec<&'static str> {
     let mut out: Vec<&'static str> = vec![];
@@ -741,6 +780,35 @@ fn probe(a: &Args) {
     }
     sut.cleanup();
     for (k, (n, b)) in by_kind { println!("{:70} tried {:5} bad {:5}", k, n, b); }
+}
+
+/// debug: print the SQL text and the result of every formulation of the replay lines
+fn explain(a: &Args) {
+    let mut sut = Sut::new();
+    for l in a.replay_lines().unwrap_or_default() {
+        let c = match Case::from_line(&l) { Some(c) => c, None => { println!("cannot parse: {}", l); continue; } };
+        println!("==== {}", l);
+        match c {
+            Case::Meta(m) => {
+                for t in &m.db { println!("   {}: {}", t.name, t.to_line()); }
+                let base = sut.run(&m.db, &m.q.to_sql(&m.db));
+                println!("   BASE {:?} {}\n        => {}", dangers(&m.q, &m.db), m.q.to_sql(&m.db), show_res(&base));
+                match eval_query(&m.q, &m.db) { Some(sp) => println!("        spec {}", show_res(&Res::Rows(sp))), None => println!("        spec undefined") }
+                for rw in &m.rws {
+                    if let Some((q2, perm)) = rw.apply(&m.q, &m.db) {
+                        let r = sut.run(&m.db, &q2.to_sql(&m.db));
+                        println!("   {} perm={:?} {:?} agree={}\n        {}\n        => {}", rw.to_line(), perm, dangers(&q2, &m.db), same_bag(&base, &r, &perm), q2.to_sql(&m.db), show_res(&r));
+                    } else { println!("   {} does not apply", rw.to_line()); }
+                }
+                if m.tlp { if let Some((qn, qu, qa)) = tlp_queries(&m.q) {
+                    for (n, q) in [("not", qn), ("isnull", qu), ("all", qa)] { let r = sut.run(&m.db, &q.to_sql(&m.db)); println!("   tlp {} {:?}: {}\n        => {}", n, dangers(&q, &m.db), q.to_sql(&m.db), show_res(&r)); }
+                } }
+            }
+            Case::Fold(db, q) => println!("   {}\n        => {:?}", q.to_sql(&db), observe_fold(&db, &q)),
+            Case::Push(db, q) => println!("   {}\n        => {:?}", q.to_sql(&db), observe_push(&db, &q)),
+        }
+    }
+    sut.cleanup();
 }
 
 fn show(v: &OwnedValue) -> String {
